@@ -130,6 +130,15 @@ func (fr *frame) prepareCall(call *ssa.CallCommon, instr ssa.Instruction) (fn Va
 		if recv.t == nil {
 			fr.rtPanic(instr, "invalid memory address or nil pointer dereference (method call on nil interface)")
 		}
+		if o, ok := recv.v.(*Opaque); ok && o != nil {
+			if im := fr.m.eng.opaqueMethods[o.kind+"."+call.Method.Name()]; im != nil {
+				args = append(args, recv.v)
+				for _, a := range call.Args {
+					args = append(args, fr.get(a))
+				}
+				return opaqueCall{im}, args
+			}
+		}
 		f := fr.m.prog.LookupMethod(recv.t, call.Method.Pkg(), call.Method.Name())
 		if f == nil {
 			panic(abort(fmt.Sprintf("no method %s for dynamic type %v", call.Method.Name(), recv.t)))
@@ -154,6 +163,8 @@ func (m *Machine) call(caller *frame, pos token.Pos, fn Value, args []Value) Val
 		return m.callSSA(caller, pos, fn.Fn, args, fn.Env)
 	case *ssa.Builtin:
 		return m.callBuiltin(caller, pos, fn, args)
+	case opaqueCall:
+		return fn.in(m, caller, args)
 	}
 	panic(abort(fmt.Sprintf("cannot call %T", fn)))
 }
@@ -770,3 +781,6 @@ func (m *Machine) summarise(caller *frame, pos token.Pos, fn *ssa.Function, args
 	}
 	return mkBool(result), true
 }
+
+// opaqueCall: a method of a modelled library object reached through an interface value.
+type opaqueCall struct{ in intrinsic }
